@@ -4,6 +4,7 @@ import (
 	"github.com/pokt-network/pocket-core/crypto"
 	sdk "github.com/pokt-network/pocket-core/types"
 	"github.com/pokt-network/pocket-core/x/auth"
+	authTypes "github.com/pokt-network/pocket-core/x/auth/types"
 	dbm "github.com/tendermint/tm-db"
 	"verifharness/internal/chain"
 )
@@ -36,6 +37,7 @@ type Options struct {
 	ChainID  string
 	Features map[string]int64 // nil = every feature from height 1
 	FeeMulti int64            // default fee multiplier (0 = 1)
+	SendMulti int64           // per-type multiplier for "send" (0 = none)
 }
 
 func upokt(a int64) sdk.Coins { return sdk.Coins{sdk.NewCoin(sdk.DefaultStakeDenom, sdk.NewInt(a))} }
@@ -85,6 +87,9 @@ func NewChain(o Options) (*Lab, *Roles) {
 		if o.FeeMulti != 0 {
 			gs.Auth.Params.FeeMultiplier.Default = o.FeeMulti
 		}
+		if o.SendMulti != 0 {
+			gs.Auth.Params.FeeMultiplier.FeeMultis = []authTypes.FeeMultiplier{{Key: "stake_validator", Multiplier: 2}, {Key: "send", Multiplier: o.SendMulti}}
+		}
 	}
 	gen := chain.BuildGenesis(g)
 	n := chain.NewNode(gen, o.ChainID, g.GenesisTime, dbm.NewMemDB(), dbm.NewMemDB(), dbm.NewMemDB(), false)
@@ -95,7 +100,7 @@ func NewChain(o Options) (*Lab, *Roles) {
 	// accounts with ordinary transfers in a setup block
 	var setup [][]byte
 	for i, m := range []Multi{r.Multi, r.Deep} {
-		setup = append(setup, chain.SignTx(o.ChainID, r.Rich[0], chain.MsgSend(r.Rich[0].Addr, AddrOf(m.Pub()), 1000000000), chain.DefaultFee*(o.FeeMulti+1), int64(900+i), ""))
+		setup = append(setup, chain.SignTx(o.ChainID, r.Rich[0], chain.MsgSend(r.Rich[0].Addr, AddrOf(m.Pub()), 1000000000), chain.DefaultFee*(o.FeeMulti+o.SendMulti+1), int64(900+i), ""))
 	}
 	// genesis validators pass through LegacyValidator (no output address): make NodeNC
 	// non-custodial with an edit-stake signed by the operator; 60e9 = stake weight ceiling, so later
